@@ -1,5 +1,6 @@
 import Model.Lib.Wallace
 import Proofs.Lemmas.Mult
+import Proofs.Lemmas.Adders
 /-! The Wallace reducer returns the weighted column sum modulo `2^result_bitwidth`. -/
 namespace Pyrtl.Adders
 open Pyrtl.Synth
@@ -156,5 +157,91 @@ theorem sum_toNat_lt (ws : List (List Bool)) (L : Nat) (h : ∀ w ∈ ws, w.leng
     have := ih (fun x hx => h x (by simp [hx]))
     simp only [List.map_cons, List.sum_cons, List.length_cons, Nat.succ_mul]
     omega
+
+/-! ### `generalized_fma`: columns from products and addends -/
+
+theorem pushProd_eq (cols : List (List Bool)) (ab : List Bool × List Bool) :
+    pushProd cols ab = (ab.1.zipIdx).foldl (pushRow ab.2) cols := rfl
+
+theorem pushProd_val (cols : List (List Bool)) (ab : List Bool × List Bool)
+    (h : ab.1.length + ab.2.length ≤ cols.length + 1) :
+    (pushProd cols ab).length = cols.length ∧
+    colsVal (pushProd cols ab) = colsVal cols + toNat ab.1 * toNat ab.2 := by
+  have := outer_val ab.1 ab.2 0 cols (by omega) (Or.inr trivial)
+  rw [pushProd_eq]
+  simpa using this
+
+theorem foldl_pushProd (pairs : List (List Bool × List Bool)) (cols : List (List Bool))
+    (h : ∀ p ∈ pairs, p.1.length + p.2.length ≤ cols.length + 1) :
+    (pairs.foldl pushProd cols).length = cols.length ∧
+    colsVal (pairs.foldl pushProd cols) = colsVal cols + (pairs.map fun p => toNat p.1 * toNat p.2).sum := by
+  induction pairs generalizing cols with
+  | nil => simp
+  | cons p ps ih =>
+    simp only [List.foldl_cons, List.map_cons, List.sum_cons]
+    obtain ⟨hl1, hv1⟩ := pushProd_val cols p (h p (by simp))
+    obtain ⟨hl, hv⟩ := ih (pushProd cols p) (fun x hx => by rw [hl1]; exact h x (by simp [hx]))
+    rw [hl1] at hl
+    refine ⟨hl, ?_⟩
+    rw [hv, hv1]; omega
+
+theorem le_maxList (xs : List Nat) : ∀ x ∈ xs, x ≤ maxList xs := by
+  induction xs with
+  | nil => intro x hx; simp at hx
+  | cons y ys ih =>
+    intro x hx
+    simp only [List.mem_cons] at hx
+    rcases hx with rfl | hx
+    · exact Nat.le_max_left _ _
+    · exact Nat.le_trans (ih x hx) (Nat.le_max_right _ _)
+
+theorem lt_two_pow_bitLength (n : Nat) : n < 2 ^ bitLength n := by
+  unfold bitLength
+  cases h : (List.range (n + 1)).find? (fun k => n < 2 ^ k) with
+  | none => simp only [Option.getD_none]; exact Nat.lt_two_pow_self
+  | some k =>
+    simp only [Option.getD_some]
+    have := List.find?_some h
+    simpa using this
+
+theorem sum_prod_le (pairs : List (List Bool × List Bool)) :
+    (pairs.map fun p => toNat p.1 * toNat p.2).sum ≤
+      (pairs.map fun p => (2 ^ p.1.length - 1) * (2 ^ p.2.length - 1)).sum := by
+  induction pairs with
+  | nil => simp
+  | cons p ps ih =>
+    simp only [List.map_cons, List.sum_cons]
+    have h1 := toNat_lt p.1
+    have h2 := toNat_lt p.2
+    have : toNat p.1 * toNat p.2 ≤ (2 ^ p.1.length - 1) * (2 ^ p.2.length - 1) :=
+      Nat.mul_le_mul (by omega) (by omega)
+    omega
+
+theorem sum_add_le (adds : List (List Bool)) :
+    (adds.map toNat).sum ≤ (adds.map fun w => 2 ^ w.length - 1).sum := by
+  induction adds with
+  | nil => simp
+  | cons w ws ih =>
+    simp only [List.map_cons, List.sum_cons]
+    have := toNat_lt w
+    omega
+
+/-! ### `carrysave_adder` -/
+
+theorem carrysave_bits (a b c : List Bool) (h1 : a.length = b.length) (h2 : b.length = c.length) :
+    toNat (List.zipWith (fun x yz => xor (xor x yz.1) yz.2) a (List.zip b c)) +
+    2 * toNat (List.zipWith (fun x yz => (x || yz.1) && (x || yz.2) && (yz.1 || yz.2)) a (List.zip b c))
+      = toNat a + toNat b + toNat c := by
+  induction a generalizing b c with
+  | nil => cases b <;> cases c <;> simp_all [toNat]
+  | cons x xs ih =>
+    match b, c, h1, h2 with
+    | y :: ys, z :: zs, h1, h2 =>
+      simp only [List.length_cons, Nat.add_right_cancel_iff] at h1 h2
+      have := ih ys zs h1 h2
+      simp only [List.zip_cons_cons, List.zipWith_cons_cons, toNat]
+      have hb : b2n (xor (xor x y) z) + 2 * b2n ((x || y) && (x || z) && (y || z)) = b2n x + b2n y + b2n z := by
+        cases x <;> cases y <;> cases z <;> rfl
+      omega
 
 end Pyrtl.Adders
